@@ -546,10 +546,39 @@ func c17History(r *engine.Run) {
 			return []interface{}{b, errS(err)}
 		}})
 	}
-	d := 2
-	if r.Thorough() {
-		d = 3
+	// decoding into the sequence's reused receivers (a request variable reused across messages)
+	for i, txt := range []string{"", "0102", "0xAABBCC", "zz"} {
+		txt := txt
+		ops = append(ops, HOp{fmt.Sprintf("HEXBytes.UnmarshalText(%s)-into-reused-receiver", []string{"empty", "0102", "0xAABBCC", "malformed"}[i]), func(ctx HCtx) interface{} {
+			hb, _ := ctx["hexbytes"].(*backend.HEXBytes)
+			if hb == nil {
+				hb = &backend.HEXBytes{}
+				ctx["hexbytes"] = hb
+			}
+			err := hb.UnmarshalText([]byte(txt))
+			if err != nil {
+				return []interface{}{"error"} // the value after a refused input is not specified
+			}
+			return []interface{}{append([]byte{}, (*hb)...), errS(err)}
+		}})
+		_ = i
 	}
-	r.Rule += historyRule + fmt.Sprintf(" Key-envelope alphabet: NewKeyEnvelope for 3 KEKs (16/16/32 bytes) x 2 keys x 2 labels with the KEK in a fresh slice or in the sequence's reused KEK buffer (overwritten in place), each compared with the independent RFC 3394 wrap and opened with its own KEK; label-less and refused calls; HEXBytes text/JSON forms; all sequences of <= %d calls.", d)
+	for ji, js := range []string{`{"KEKLabel":"","AESKey":""}`, `{"KEKLabel":"lbl","AESKey":"00112233445566778899AABBCCDDEEFF0011223344556677"}`, `{"KEKLabel":"x","AESKey":"01"}`} {
+		js := js
+		ops = append(ops, HOp{fmt.Sprintf("json(%s)-into-reused-KeyEnvelope", []string{"empty-label-empty-key", "label-24-byte-key", "label-1-byte-key"}[ji]), func(ctx HCtx) interface{} {
+			ke, _ := ctx["envelope"].(*backend.KeyEnvelope)
+			if ke == nil {
+				ke = &backend.KeyEnvelope{}
+				ctx["envelope"] = ke
+			}
+			err := json.Unmarshal([]byte(js), ke)
+			return []interface{}{ke.KEKLabel, append([]byte{}, ke.AESKey...), errS(err)}
+		}})
+	}
+	d := 3
+	if r.Thorough() {
+		d = 4
+	}
+	r.Rule += historyRule + fmt.Sprintf(" Key-envelope alphabet: NewKeyEnvelope for 3 KEKs (16/16/32 bytes) x 2 keys x 2 labels with the KEK in a fresh slice or in the sequence's reused KEK buffer (overwritten in place), each compared with the independent RFC 3394 wrap and opened with its own KEK; label-less and refused calls; HEXBytes text/JSON forms; HEXBytes.UnmarshalText and json.Unmarshal of key envelopes (all members present, some empty) into the sequence's reused receivers; all sequences of <= %d calls.", d)
 	historyPart(r, "history/key-envelopes", ops, d)
 }
